@@ -119,7 +119,7 @@ def walkLoop (ev : Op → Int → Int → Option Int) (env : Env) : LBody → Op
     | none => none
     | some v => walkLoop ev (upd env x v) k
   | .sif c inv v k =>
-    if (c.eval env ≠ 0) ≠ inv then
+    if (decide (c.eval env ≠ 0) != inv) = true then
       match walkRec ev env v with
       | some (.value r) => some (.brk r)
       | _ => none            -- unreachable: `v` has no tail call (it was an `Err` branch)
@@ -161,14 +161,12 @@ def indexOf (params : List Name) (x : Name) : Option Nat :=
   | [] => none
   | p :: ps => if p = x then some 0 else (indexOf ps x).map (· + 1)
 
-/-- No loop value reads a parameter that an *earlier* loop variable assignment has already
-overwritten: argument `j` is not a parameter of position `< j`. -/
-def noBackwardRef (params : List Name) : List Expr → Bool
-  | [] => true
-  | _ :: rest =>
-    (match params with
-     | [] => true
-     | p :: ps => rest.all (fun b => b != .var p) && noBackwardRef ps rest)
+/-- No loop value reads a parameter that an *earlier* loop-variable assignment has already
+overwritten with something else: if argument `i` is not parameter `i` itself, no later argument is
+parameter `i`. -/
+def noBackwardRef : List Name → List Expr → Bool
+  | p :: ps, a :: rest => (a == .var p || rest.all (fun b => b != .var p)) && noBackwardRef ps rest
+  | _, _ => true
 
 /-- All directly used loop-value lists (those not passing through `merge` temporaries) are safe. -/
 def safeArgs (params : List Name) : LBody → Bool
